@@ -757,11 +757,12 @@ def compare(ctx, c, route, res, mtext, with_rest, corr="corr:resolve"):
         return
     rd, spec, zone = mtext.split(";")
     ic = impl_class(res)
-    default_opts = not c.ropts
+    default_opts = True          # the specification now covers the reader options (wrap_spec)
+    has_opts = bool(c.ropts)
     if default_opts and zone.startswith("Z0"):
         ctx.notes.setdefault("outside_zone_reasons", {})
         ctx.notes["outside_zone_reasons"][zone] = ctx.notes["outside_zone_reasons"].get(zone, 0) + 1
-    if not default_opts:
+    if has_opts:
         ctx.notes["cases_with_reader_options"] = ctx.notes.get("cases_with_reader_options", 0) + 1
     if zone in ("Z1", "Z2") and default_opts:
         key = "cases_inside_agreement_zone" if zone == "Z1" else "cases_inside_agreement_zone_with_references(depth<=16)"
